@@ -5,6 +5,7 @@
 //
 //	read <hex>            bytes fed to marbl.Reader until it fails
 //	log <msg> <msg> ...   messages logged concurrently to one marbl.Stream
+//	m <msg> ... run       the same, one message per op (the shrinker drops messages)
 //	  msg = kind/id/api/pseudo,.../host/cl/te/hdrs/reads
 //	    kind   q (request) | s (response)
 //	    id     hex, >= 8 bytes (the frames carry id[:8])
@@ -47,7 +48,7 @@ func init() { core.Register(P{}) }
 
 func (P) ID() string { return "C19" }
 func (P) Rule() string {
-	return "case = either one `log` op: 1..8 messages (requests/responses, request+response pairs sharing an id, random pseudo-header " +
+	return "case = either one logging run (`m` op per message, then `run`): 1..8 messages (requests/responses, request+response pairs sharing an id, random pseudo-header " +
 		"fields, header maps with repeated/empty/binary/long values, bodies 0..MiB delivered by a scripted body in random chunkings with " +
 		"EOF-with-data / separate EOF / early stop / mid-body error / reads after EOF, consumer buffers of random slack) logged concurrently " +
 		"to one real marbl.Stream and parsed back with marbl.Reader and an independent parser; or a batch of `read` ops: streams of valid " +
@@ -60,13 +61,19 @@ func (P) Nontrivial(ops []string, impl []string) bool {
 	if len(ops) == 0 {
 		return false
 	}
-	if strings.HasPrefix(ops[0], "log ") {
-		t := strings.Fields(ops[0])
-		if len(t) < 3 {
+	if strings.HasPrefix(ops[0], "log ") || strings.HasPrefix(ops[0], "m ") {
+		var toks []string
+		for _, op := range ops {
+			t := strings.Fields(op)
+			if len(t) >= 2 && (t[0] == "log" || t[0] == "m") {
+				toks = append(toks, t[1:]...)
+			}
+		}
+		if len(toks) < 2 {
 			return false
 		}
 		nd := 0
-		for _, m := range t[1:] {
+		for _, m := range toks {
 			f := strings.Split(m, "/")
 			if len(f) == 9 && f[8] != "_" {
 				nd += strings.Count(f[8], ";") + 1
@@ -525,6 +532,9 @@ func doLog(toks []string) core.Result {
 	var removes []func()
 	start := make(chan struct{})
 	var wg sync.WaitGroup
+	var panMu sync.Mutex
+	panicked := ""
+
 	t0 := time.Now().UnixNano() / 1e6
 	for i, m := range ms {
 		// build the message
@@ -591,6 +601,15 @@ func doLog(toks []string) core.Result {
 		wg.Add(1)
 		go func(i int, m *msg) {
 			defer wg.Done()
+			defer func() {
+				if x := recover(); x != nil {
+					panMu.Lock()
+					if panicked == "" {
+						panicked = fmt.Sprintf("message %d: %v", i, x)
+					}
+					panMu.Unlock()
+				}
+			}()
 			<-start
 			var wrapped io.ReadCloser
 			if m.kind == 'q' {
@@ -623,6 +642,9 @@ func doLog(toks []string) core.Result {
 	case <-time.After(20 * time.Second):
 		return core.Result{Impl: "hang", Fail: "logging goroutines did not finish within 20s", Sig: "log-hang"}
 	}
+	panMu.Lock()
+	pm := panicked
+	panMu.Unlock()
 	closed := make(chan struct{})
 	go func() { s.Close(); close(closed) }()
 	select {
@@ -640,6 +662,10 @@ func doLog(toks []string) core.Result {
 	var streamBytes []byte
 	for _, c := range chunks {
 		streamBytes = append(streamBytes, c...)
+	}
+
+	if pm != "" {
+		return core.Result{Impl: "panic", Fail: "logging a message panicked: " + pm, Sig: "log-panic"}
 	}
 
 	// ---- observations
@@ -815,18 +841,28 @@ func doLog(toks []string) core.Result {
 	return res
 }
 
-type ex struct{}
+type ex struct{ queue []string }
 
-func (P) NewExec() core.Exec { return ex{} }
-func (ex) Close()            {}
+func (P) NewExec() core.Exec { return &ex{} }
+func (*ex) Close()           {}
 
-func (ex) Do(op string) core.Result {
+func (e *ex) Do(op string) core.Result {
 	t := strings.Fields(op)
 	switch {
 	case len(t) == 2 && t[0] == "read":
 		return doRead(t[1])
 	case len(t) >= 2 && t[0] == "log":
 		return doLog(t[1:])
+	case len(t) == 2 && t[0] == "m": // one message of the next `run`
+		e.queue = append(e.queue, t[1])
+		return core.Result{Impl: "queued"}
+	case len(t) == 1 && t[0] == "run":
+		q := e.queue
+		e.queue = nil
+		if len(q) == 0 {
+			return core.Result{Impl: "bad-op"}
+		}
+		return doLog(q)
 	}
 	return core.Result{Impl: "bad-op"}
 }
